@@ -1,6 +1,6 @@
 --------------------------- MODULE MC_WignerSeitz ---------------------------
 (* Bounded model for the replica selection of C01: every listed Gram matrix, mesh, tolerance and every shift
-   delta = tau_b - tau_a with components in multiples of STEP/4 up to DMAX/4 in the first DIM directions.
+   delta = tau_b - tau_a with components in multiples of STEP/SS up to DMAX/SS in the first DIM directions.
    One behaviour  new -> done  per input; Compute evaluates WignerSeitz.__call__ for +delta and -delta (the pairs (a,b), (b,a)).
    BOXDIM = 3 is the search box of the code; BOXDIM < 3 drops the translations along the inert directions (allowed only
    when DirectionsInert and the tolerance is tight -- InertModeValid; the lemma is checked by the configuration with
@@ -11,16 +11,16 @@ CONSTANTS GRAMS,     \* Gram matrices coded g11 g22 g33 (g12+4) (g13+4) (g23+4) 
           MESHES,    \* meshes coded 100 n1 + 10 n2 + n3
           TOLS,      \* tolerance ids: 1 -> 1/1000, 2 -> 1/100000, 3 -> 1/4, 4 -> 1/2
           DIM,       \* the shift has non-zero components in directions 1..DIM only
-          DMAX, STEP,\* components of 4 delta: multiples of STEP with absolute value <= DMAX
+          DMAX, STEP,\* components of SS delta: multiples of STEP with absolute value <= DMAX
           BOXDIM,    \* translations searched along directions 1..BOXDIM
           LEMMADIM,  \* if < BOXDIM: also evaluate with the box restricted to 1..LEMMADIM and compare (InertLemma)
           BIGBOX,    \* if > 3: also evaluate with the search box (-BIGBOX..BIGBOX)^BOXDIM and compare (BoxSufficient)
-          WrongSign  \* sensitivity: the pair (b,a) evaluated with the shift of (a,b); MinusSymmetry must fail
+          WrongSign, \* sensitivity: the pair (b,a) evaluated with the shift of (a,b); MinusSymmetry must fail
+          SS         \* denominator of the shifts (4: quarters of lattice vectors; 3, 6, 12: thirds, sixths, twelfths)
 VARIABLES gram, mesh, delta, tolid, phase,
           C, Cm    \* the per-class results of WignerSeitz.__call__ for the shifts of the pairs (a,b) and (b,a)
 vars == <<gram, mesh, delta, tolid, phase, C, Cm>>
 
-SS == 4
 Digit(x, k) == (x \div IntPow(10, k)) % 10
 GramOf(x) == LET g12 == Digit(x, 2) - 4  g13 == Digit(x, 1) - 4  g23 == Digit(x, 0) - 4
              IN << <<Digit(x, 5), g12, g13>>, <<g12, Digit(x, 4), g23>>, <<g13, g23, Digit(x, 3)>> >>
